@@ -10,10 +10,10 @@ MAX_IDS = 12
 
 
 def modelled(sc: dict) -> bool:
-    """the scenarios Runner speaks about: one worker, one queue, in-memory broker, plain outcomes, no recurrence / ttl"""
+    """the scenarios Runner speaks about: one worker, up to three queues, in-memory broker, plain outcomes, no recurrence / ttl"""
     if sc.get("backend", "inmem") != "inmem" or sc.get("kill") or sc.get("nworkers", 1) != 1:
         return False
-    if len({a.get("queue", "default") for a in sc["actors"].values()}) != 1 or len(sc["jobs"]) > MAX_IDS:
+    if len({a.get("queue", "default") for a in sc["actors"].values()}) > 3 or len(sc["jobs"]) > MAX_IDS:
         return False
     for j in sc["jobs"]:
         if j.get("defer_by_ms") or j.get("cron") or j.get("ttl_ms") or j.get("foreign"):
@@ -31,6 +31,13 @@ def project(trace: list[dict], sc: dict) -> list[dict] | None:
     if wcfg is None:
         return None
     wcons = {e["c"] for e in trace if e["e"] == "cons" and e.get("w")}
+    cq = {e["c"]: e["q"] for e in trace if e["e"] == "cons" and e.get("w")}
+    qmap: dict[int, int] = {}            # recorder's queue number -> 1..nq (the worker's queues, in order of their consumers)
+    for c in sorted(cq):
+        qmap.setdefault(cq[c], len(qmap) + 1)
+    if not 1 <= len(qmap) <= 3:
+        return None
+    qof: dict[int, int] = {}
     calls: dict[int, dict] = {}
     maxr: dict[int, int] = {}
     out: list[dict] = []
@@ -47,8 +54,9 @@ def project(trace: list[dict], sc: dict) -> list[dict] | None:
             cl = calls.get(e.get("k", 0), {})
             op = cl.get("op")
             if i not in seen:
-                if op != "enqueue" or v[3]:
+                if op != "enqueue" or v[3] or cl.get("m", {}).get("q") not in qmap:
                     return None
+                qof[i] = qmap[cl["m"]["q"]]
                 seen.add(i)
                 out.append({"e": "arrive", "i": i})
             elif v[3] == 1 and e.get("c") in wcons and op in ("consume", "start", None):
@@ -69,7 +77,7 @@ def project(trace: list[dict], sc: dict) -> list[dict] | None:
                 maxr[e["i"]] = int(e.get("p", {}).get("max", 0))
                 out.append({"e": "got", "i": e["i"]})
             elif cl.get("op") == "finish" and cl.get("c") in wcons:
-                out.append({"e": "fin", "ids": sorted(fin_moves.get(e["k"], []))})
+                out.append({"e": "fin", "q": qmap[cq[cl["c"]]], "ids": sorted(fin_moves.get(e["k"], []))})
         elif k == "xs":
             out.append({"e": "xs", "i": e["i"]})
         elif k == "xe":
@@ -83,7 +91,8 @@ def project(trace: list[dict], sc: dict) -> list[dict] | None:
             out.append({"e": "ret"})
     n = max(seen) if seen else 0
     # retries per message: from the job that carries the id (ids are numbered in order of first appearance)
-    cfg = {"e": "cfg", "tl": int(wcfg["tl"]), "ml": int(wcfg["ml"]), "maxr": [maxr.get(i, 0) for i in range(1, n + 1)]}
+    cfg = {"e": "cfg", "tl": int(wcfg["tl"]), "ml": int(wcfg["ml"]), "nq": len(qmap), "maxr": [maxr.get(i, 0) for i in range(1, n + 1)],
+           "qof": [qof.get(i, 1) for i in range(1, n + 1)]}
     return [cfg] + out
 
 
@@ -127,7 +136,7 @@ def run_part(ck, scs: list[dict], traces: list[list[dict]]) -> None:
     ck.notes["runner_traces"] = len(proj)
     if not proj:
         return
-    v = tlc.validate_traces("Trace_Runner", "Trace_Runner.cfg", proj)
+    v = tlc.validate_traces("Trace_Runner", "Trace_Runner.cfg", proj, timeout=600)
     ck.add_tlc(v.result, f"Trace_Runner: {len(proj)} recorded in-memory worker runs validated against the implementation-shaped Runner specification (all its invariants in every state)")
     ck.traces += len(proj)
     ck.notes["runner_traces_rejected"] = len(v.rejected)
